@@ -12,7 +12,7 @@ import sys
 import xml.etree.ElementTree as ET
 
 from . import spec
-from .simfs import SimFS, MOUNT
+from .simfs import SimFS
 
 BUDGET = 2_000_000          # function entries per public call
 
@@ -665,7 +665,7 @@ class World:
         root = self.docs.get(op['doc'])
         if root is None:
             raise _Skip('no doc')
-        path = MOUNT + op['path']
+        path = self.fs.mount + op['path']
         ic = bool(op.get('ic'))
         self.fs.install()
         try:
@@ -687,7 +687,7 @@ class World:
     def op_PARSE(self, op):
         if op['doc'] in self.docs:
             raise _Skip('doc exists')
-        path = MOUNT + op['path']
+        path = self.fs.mount + op['path']
         self.fs.install()
         try:
             r = self.call(lambda: self.lib.parser.parse_musicxml(path))
@@ -717,21 +717,20 @@ class World:
         p = op.get('params') or {}
         if k.startswith('fs.') and k not in ('fs.encoding', 'fs.prior', 'fs.clear'):
             if k == 'fs.readonly':
-                self.fs.readonly.add(MOUNT + p['path'])
+                self.fs.readonly.add(self.fs.mount + p['path'])
             elif k == 'fs.is_dir':
-                self.fs.dirs.add(MOUNT + p['path'])
-                self.fs.files.pop(MOUNT + p['path'], None)
+                self.fs.dirs.add(self.fs.mount + p['path'])
             else:
                 self.fs.arm(k, p)
         elif k == 'fs.encoding':
             self.fs.default_encoding = p['encoding']
         elif k == 'fs.prior':
-            self.fs.files[MOUNT + p['path']] = bytes.fromhex(p['hex'])
+            self.fs.files[self.fs.mount + p['path']] = bytes.fromhex(p['hex'])
         elif k == 'fs.clear':
             self.fs.faults.clear()
         elif k.startswith('disk.'):
             from . import diskfaults
-            path = MOUNT + p['path']
+            path = self.fs.mount + p['path']
             if path not in self.fs.files:
                 raise _Skip('no file')
             new = diskfaults.apply(k, self.fs.files[path], p)
@@ -750,11 +749,11 @@ class World:
 
     def op_FSPUT(self, op):
         """Harness op: store bytes in SimFS (the foreign-writer stub's output)."""
-        self.fs.files[MOUNT + op['path']] = bytes.fromhex(op['hex']) if 'hex' in op else op['text'].encode('utf-8')
+        self.fs.files[self.fs.mount + op['path']] = bytes.fromhex(op['hex']) if 'hex' in op else op['text'].encode('utf-8')
         return ('ok', None)
 
     def op_FSSTATE(self, op):
-        return ('ok', self.fs.state(MOUNT + op['path']))
+        return ('ok', self.fs.state(self.fs.mount + op['path']))
 
     def op_PAIR(self, op):
         """One abstract step rendered on two API surfaces (C15), executed atomically so that the
